@@ -384,6 +384,18 @@ def avgGapF (n : Nat) : Nat := ((fmax 8.0 (toF n)).log + 2).toUInt64.toNat
     result must not depend on them -/
 def nthLine (op : String) : String :=
   match (op.splitOn " ").filter (· ≠ "") with
+  | ["nth", a, b, _t, _k, _api, ab] =>
+    -- hook H4: nthPrimeApprox() replaced by a constant
+    match a.toInt?, b.toNat?, kv ab with
+    | some n, some start, some v =>
+      let o : NthOracle := { piA := fun _ => 0, nthA := fun _ => v, avgGap := avgGapF, isqrt := Nat.sqrt }
+      let w := 30000000
+      let lo := start - min start w
+      let hi := start + w
+      if hi ≤ 200000000000000 ∧ n.natAbs ≤ 400000 ∧ (v ≤ hi ∧ lo ≤ v ∨ v = 0 ∧ start ≤ w) then
+        showNth (nthWithTable (segmentTable lo hi) lo hi (fun _ => 1024) o n start)
+      else showNth (nthPrime driverEnv (fun _ => 1024) countFn o n start)
+    | _, _, _ => "bad-op"
   | ["nth", a, b, _t, _k, _api] =>
     match a.toInt?, b.toNat? with
     | some n, some start =>
